@@ -126,6 +126,16 @@ func diff(a, b reflect.Value, path string, seen map[[2]unsafe.Pointer]bool) stri
 		it := a.MapRange()
 		for it.Next() {
 			bv := b.MapIndex(it.Key())
+			if !bv.IsValid() && a.Type().Key().Kind() != reflect.String {
+				// keys that hold pointers are equal by content, not by identity
+				bit := b.MapRange()
+				for bit.Next() {
+					if diff(it.Key(), bit.Key(), path+"[key]", map[[2]unsafe.Pointer]bool{}) == "" {
+						bv = bit.Value()
+						break
+					}
+				}
+			}
 			if !bv.IsValid() {
 				return fmt.Sprintf("%s: key %v missing", path, it.Key())
 			}
